@@ -262,6 +262,72 @@ fn do_value_texts(rep: &mut Report, sc: &Scratch, texts: &[Vec<u8>]) {
     }
 }
 
+/// Rust port of `GixModel.C27.plainText` (the domain of the theorem `value_eq_git`); tied to the
+/// Lean definition by the `plain` correspondence op.
+fn plain_text(text: &[u8]) -> bool {
+    fn escapable(d: u8) -> bool {
+        matches!(d, b'n' | b't' | b'\\' | b'b' | b'"')
+    }
+    fn go(i: &[u8], mut started: bool, mut in_q: bool) -> bool {
+        let mut i = i;
+        loop {
+            match i {
+                [] => return true,
+                [c] => {
+                    let c = *c;
+                    if c == b'\n' {
+                        return true;
+                    }
+                    if (c == b';' || c == b'#') && !in_q {
+                        return true;
+                    }
+                    return c != b'\\' && c != 9 && c != 12 && c != 13 && (c != b' ' || in_q || started);
+                }
+                [c, d, r @ ..] => {
+                    let (c, d) = (*c, *d);
+                    if c == b'\n' {
+                        return true;
+                    }
+                    if (c == b';' || c == b'#') && !in_q {
+                        return true;
+                    }
+                    if c == b'\\' {
+                        if d == b'\n' {
+                            i = r;
+                        } else if d == b'b' || d == 13 {
+                            return false;
+                        } else if escapable(d) {
+                            started = true;
+                            i = r;
+                        } else {
+                            return true;
+                        }
+                    } else if c == 9 || c == 12 || c == 13 {
+                        return false;
+                    } else if c == b'"' {
+                        in_q = !in_q;
+                        i = &i[1..];
+                    } else if c == b' ' {
+                        if !(in_q || started) {
+                            return false;
+                        }
+                        started = started || in_q;
+                        i = &i[1..];
+                    } else {
+                        started = true;
+                        i = &i[1..];
+                    }
+                }
+            }
+        }
+    }
+    if text.contains(&13) {
+        return false;
+    }
+    let skip = text.iter().take_while(|c| **c == b' ' || **c == 9).count();
+    go(&text[skip..], false, false)
+}
+
 /// one value text after `=`: spec vs git, model vs gitoxide, gitoxide vs git
 fn do_value_text(rep: &mut Report, text: &[u8], git_val: Option<Vec<u8>>) {
     let mut file = b"[t]\nv =".to_vec();
@@ -272,11 +338,26 @@ fn do_value_text(rep: &mut Report, text: &[u8], git_val: Option<Vec<u8>>) {
         None => "err".into(),
     };
     rep.case(&format!("gitvalue {}", hex(text)), &obs, git_val.is_some());
+    let in_domain = plain_text(text);
+    rep.case(&format!("plain {}", hex(text)), if in_domain { "true" } else { "false" }, false);
+    rep.bucket(if in_domain { "value:in-proved-domain" } else { "value:outside-proved-domain" });
     // (a) model vs gitoxide
     do_get(rep, &file, b"t", None, b"v");
     // oracle: gitoxide vs git, on what git accepts
     let Some(gv) = git_val else {
         rep.bucket("value:git-rejects");
+        if in_domain {
+            // value_eq_git: inside the domain both accept the same texts
+            rep.oracle_checked();
+            let accepts = catch(|| file_of(&file).map_or(false, |f| f.raw_values_by("t", None, "v").is_ok())).unwrap_or(true);
+            if accepts {
+                rep.oracle_failure(
+                    &format!("accepted-in-proved-domain:{}", hex(text)),
+                    &format!("`v ={}`: git rejects it, gitoxide reads a value", short(text)),
+                    &format!("get {} 74 ~ 76", hex(&file)),
+                );
+            }
+        }
         return;
     };
     rep.oracle_checked();
@@ -284,7 +365,10 @@ fn do_value_text(rep: &mut Report, text: &[u8], git_val: Option<Vec<u8>>) {
     let gix = catch(|| file_of(&file).map(|f| f.raw_values_by("t", None, "v").map(|v| v.iter().map(|x| x.to_vec()).collect::<Vec<_>>())));
     let op = format!("get {} 74 ~ 76", hex(&file));
     let class = |rep: &mut Report, what: &str, detail: String| {
-        if tr.backspace {
+        if in_domain {
+            // inside the domain of Props.C27.value_eq_git nothing may differ
+            rep.oracle_failure(&format!("{what}-in-proved-domain:{}", hex(text)), &detail, &op);
+        } else if tr.backspace {
             rep.bucket("value:documented-backspace");
             rep.outside_domain(&format!("\\b escape (documented deviation of normalize): {}", short(text)));
         } else if tr.odd_space {
